@@ -185,6 +185,15 @@ Section BMScript.
     end.
 End BMScript.
 
+(* the history an instruction list stands for (GET / MEM only observe) *)
+Fixpoint bm_ops_of (is : list bm_instr) : list (bm_op val Z) :=
+  match is with
+  | [] => []
+  | BIUpdate k vo :: r => BUpdate k vo :: bm_ops_of r
+  | BIGetAndUpdate k vo :: r => BGetAndUpdate k vo :: bm_ops_of r
+  | _ :: r => bm_ops_of r
+  end.
+
 (* what one run shows: the observations in order, and the emitted diff as
    (sorted set entries, removed keys) each with its key hash *)
 Definition bm_case_out : Type := list bm_obs * list (val * bytes * Z) * list (val * bytes).
